@@ -291,8 +291,10 @@ class Property(Entity):
         vtype = self._check_new_value_types(vals)
         if vtype == DataType.String:
             vals = [ensure_text(v) for v in vals]  # py2compat
-        self._h5dataset.shape = np.shape(vals)
+        # convert before resizing: a value that cannot be converted (e.g. an
+        # integer outside int64) must not truncate or pad the stored values
         data = np.array(vals, dtype=vtype)
+        self._h5dataset.shape = np.shape(data)
         self._h5dataset.write_data(data)
         if self.file.auto_update_timestamps:
             self.force_updated_at()
